@@ -174,7 +174,7 @@ theorem lastMut_applyHook (h : Hook) (nets : List NetAttr) (k : Nat) :
     · exact map_mapIdx_of _ _ _ _ (fun j m _ => hookMod_lastMut h _ j m)
     · rfl
 
-theorem cloneMutate_lastMut (stamp k : Nat) (applied : List (Option String)) (fr : List (List Nat × List Nat))
+theorem cloneMutate_lastMut (stamp k : Nat) (applied : List (Option Change)) (fr : List (List Nat × List Nat))
     (j : Nat) (m : Mod) : (cloneMutate stamp k applied fr j m).lastMut = applied.getD j none := by
   unfold cloneMutate
   simp only
@@ -187,7 +187,7 @@ theorem cloneMutate_lastMut (stamp k : Nat) (applied : List (Option String)) (fr
 
 /-- after an architecture mutation, module `j` of *every* evaluation network (policy, critics, …)
     reports the method applied to module `j` of the policy -/
-theorem arch_followed (f : Bool) (applied : List (Option String)) (fresh : Fresh) (stamp : Nat) (a : Agent)
+theorem arch_followed (f : Bool) (applied : List (Option Change)) (fresh : Fresh) (stamp : Nat) (a : Agent)
     (k : Nat) (n : NetAttr)
     (hk : (mutate1 f { kind := Kind.arch applied, fresh := fresh, stamp := stamp } a).nets[k]? = some n)
     (he : n.role.isEval = true) :
